@@ -116,6 +116,9 @@ func one(data []byte, want result, cuts []int, maxPer int, eofWith bool, label s
 		ctx.NontrivialN(1)
 	}
 	if reflect.DeepEqual(got, want) {
+		if len(cuts) <= 1 {
+			otherEntries(data, want, cuts, maxPer, eofWith, label)
+		}
 		return
 	}
 	feature := "bytewise"
@@ -131,6 +134,84 @@ func one(data []byte, want result, cuts []int, maxPer int, eofWith bool, label s
 	if ctx.SigCount(sig) < 10 {
 		ctx.Violation(sig, map[string]interface{}{"kind": "frag", "file": engine.Hex(data), "cuts": cuts, "max_per_call": maxPer, "eof_with_data": eofWith, "family": label,
 			"what": fmt.Sprintf("reading from memory gives %s, fragmented gives %s", want.kind, got.kind)})
+	}
+}
+
+// fmtLogger builds the text a real logger would build and throws it away.
+type fmtLogger struct{ n int }
+
+func (l *fmtLogger) Printf(format string, vals ...interface{}) {
+	l.n += len(fmt.Sprintf(format, vals...))
+}
+
+// trResult: what the track iterator says about a source.
+type trResult struct {
+	kind   string
+	hasSMF bool
+	file   result
+}
+
+func summarizeTR(tr *smf.TracksReader, c engine.Caught) trResult {
+	var r trResult
+	if c.Panicked {
+		r.kind = "panic:" + c.Sig
+		return r
+	}
+	if tr == nil {
+		r.kind = "nil"
+		return r
+	}
+	err := tr.Error()
+	r.kind = "none"
+	if err == smf.ErrMissing {
+		r.kind = "missing"
+	} else if err != nil {
+		r.kind = "other"
+	}
+	if s := tr.SMF(); s != nil {
+		r.hasSMF = true
+		r.file = summarize(s, nil, engine.Caught{})
+	}
+	return r
+}
+
+var trCache = map[string]trResult{}
+
+// otherEntries: the same fragmentation through the other ways into the
+// reader - ReadFrom with the logging option, and the track iterator
+// ReadTracksFrom - each against its own result from memory.
+func otherEntries(data []byte, want result, cuts []int, maxPer int, eofWith bool, label string) {
+	rep := func(sig, what string) {
+		if ctx.SigCount(sig) < 10 {
+			ctx.Violation(sig, map[string]interface{}{"kind": "frag", "file": engine.Hex(data), "cuts": cuts, "max_per_call": maxPer, "eof_with_data": eofWith, "family": label, "what": what})
+		}
+	}
+	fr := &faultio.FragReader{Data: data, Cuts: cuts, EOFWithData: eofWith, MaxPerCall: maxPer}
+	var s *smf.SMF
+	var err error
+	c := engine.Catch(func() { s, err = smf.ReadFrom(fr, smf.Log(&fmtLogger{})) })
+	ctx.Eval()
+	if got := summarize(s, err, c); !reflect.DeepEqual(got, want) {
+		rep("fragment:with-logging:"+want.kind+"->"+got.kind, fmt.Sprintf("reading from memory gives %s, fragmented and with the logging option %s", want.kind, got.kind))
+		return
+	}
+	key := string(data)
+	wtr, ok := trCache[key]
+	if !ok {
+		if len(trCache) > 4 {
+			trCache = map[string]trResult{}
+		}
+		var tr *smf.TracksReader
+		c := engine.Catch(func() { tr = smf.ReadTracksFrom(bytes.NewReader(data)) })
+		wtr = summarizeTR(tr, c)
+		trCache[key] = wtr
+	}
+	fr = &faultio.FragReader{Data: data, Cuts: cuts, EOFWithData: eofWith, MaxPerCall: maxPer}
+	var tr *smf.TracksReader
+	c = engine.Catch(func() { tr = smf.ReadTracksFrom(fr) })
+	ctx.Eval()
+	if got := summarizeTR(tr, c); !reflect.DeepEqual(got, wtr) {
+		rep("fragment:ReadTracksFrom:"+wtr.kind+"->"+got.kind, fmt.Sprintf("ReadTracksFrom from memory: error kind %s, file present %v; fragmented: error kind %s, file present %v (or other content)", wtr.kind, wtr.hasSMF, got.kind, got.hasSMF))
 	}
 }
 
@@ -397,6 +478,15 @@ func family() (files [][]byte, names []string) {
 		f, _ := smfgen.File(sh, body, evs)
 		files = append(files, f)
 		names = append(names, name)
+	}
+	// files with a time code division, one and two tracks, formats 0, 1, 2
+	for _, sh := range []smfgen.Shape{
+		{Name: "fmt0/1trk/smpte25", Format: 0, NTracks: 1, Division: 0xE728},
+		{Name: "fmt1/2trk/smpte30", Format: 1, NTracks: 2, Division: 0xE250, SeqTrack: 1},
+		{Name: "fmt2/2trk/smpte24", Format: 2, NTracks: 2, Division: 0xE804},
+		{Name: "fmt1/2trk/div480", Format: 1, NTracks: 2, Division: 480},
+	} {
+		add([]smfgen.Timed{{T: &toks[0], D: &dls[1]}, {T: &toks[2], D: &dls[0]}}, sh, "shape:"+sh.Name)
 	}
 	for i := range toks {
 		add([]smfgen.Timed{{T: &toks[i], D: &dls[0]}}, base, "1:"+toks[i].Name)
